@@ -107,13 +107,16 @@ def model_states(ops):
     return states, flags
 
 
-def execute(path, ops):
-    """Runs the list against a real journal (crash hooks active). Index 0 = open."""
+def execute(path, ops, quiet=0):
+    """Runs the list against a real journal (crash hooks active, except during the first
+    `quiet` operations, which only build up state). Index 0 = open."""
     C = crashdb.CTL
+    C.enabled = quiet == 0
     C.begin_op(0)
     j = Journaler(path)
     C.after_op(0)
     for i, o in enumerate(ops, start=1):
+        C.enabled = i > quiet
         C.begin_op(i)
         k = o[0]
         if k == "reopen":
@@ -190,10 +193,10 @@ def normalise(ops):
     return out
 
 
-def _judge_point(acc, ops, states, flags, p, entry, obs, obs2, engine):
+def _judge_point(acc, ops, states, flags, p, entry, obs, obs2, engine, case0=None):
     opi, kind, label = entry
     opname = "open" if opi == 0 else ops[opi - 1][0]
-    case = {"ops": [list(o) for o in ops], "point": p, "engine": engine}
+    case = {"ops": [list(o) for o in ops], "point": p, "engine": engine} if case0 is None else dict(case0, point=p)
     nontrivial = bool(flags)
     if isinstance(obs, BaseException):
         acc.violation(f"C08:reopen-raises/{opname}/{kind}", f"reopening after crash at {label} of op#{opi} raised {type(obs).__name__}: {obs}", case)
@@ -220,14 +223,14 @@ def _judge_point(acc, ops, states, flags, p, entry, obs, obs2, engine):
             what = "non-atomic"
         acc.violation(
             f"C08:{what}/{opname}/{label}",
-            f"crash at point {p} ({label}, {kind}) of op#{opi} {opname}: observed {_fmt(obs)}; expected {exp}: before={_fmt(before)} after={_fmt(after)}",
+            f"crash at point {p} ({label}, {kind}) of op#{opi} {opname}: observed {_fmt(obs)[:600]}; expected {exp}: before={_fmt(before)[:600]} after={_fmt(after)[:600]}",
             case,
         )
     acc.case(
-        (tuple(ops), p) if nontrivial else None,
-        cls=[f"op={opname}", f"kind={kind}", f"engine={engine}"] + sorted(flags),
+        ((tuple(ops), p) if case0 is None else (repr(case0), p)) if nontrivial else None,
+        cls=[f"op={opname}", f"kind={kind}", f"engine={engine}"] + sorted(flags) + (["bulk-journal"] if case0 else []),
         sample={"ops": [list(o) for o in ops], "crash_point": p, "at": [opi, kind, label], "engine": engine}
-        if nontrivial and p in (7, "close") else None,
+        if nontrivial and p in (7, "close") and case0 is None else None,
     )
 
 
@@ -238,14 +241,15 @@ def _observe_safe(path):
         return e, None
 
 
-def run_list(acc, ops, tmpdir, only_point=None, engine="snapshot"):
+def run_list(acc, ops, tmpdir, only_point=None, engine="snapshot", quiet=0, case0=None):
     """engine=snapshot: one execution, the on-disk files are copied at every crash point
     (what process death would leave behind) and each image is reopened.
     engine=fork: additionally every crash point is taken for real by os._exit(137) in a
     forked child, and the two observations must agree (harness self-check)."""
     crashdb.install()
     C = crashdb.CTL
-    ops = normalise(ops)
+    if not quiet:
+        ops = normalise(ops)
     states, flags = model_states(ops)
     path = os.path.join(tmpdir, "live.db")
     _rm(path)
@@ -260,7 +264,7 @@ def run_list(acc, ops, tmpdir, only_point=None, engine="snapshot"):
 
     C.reset()
     C.hook = snap
-    j = execute(path, ops)
+    j = execute(path, ops, quiet)
     C.hook = None
     log = list(C.log)
     j.__del__()
@@ -275,7 +279,7 @@ def run_list(acc, ops, tmpdir, only_point=None, engine="snapshot"):
         obs, obs2 = _observe_safe(img) if os.path.exists(img) else (({}, {}), {})
         snap_obs[p] = obs
         if engine == "snapshot":
-            _judge_point(acc, ops, states, flags, p, entries[p], obs, obs2, "snapshot")
+            _judge_point(acc, ops, states, flags, p, entries[p], obs, obs2, "snapshot", case0)
         _rm(img)
     _rm(path)
     if engine == "fork":
@@ -334,6 +338,31 @@ FIXED = [
 ]
 
 
+BULK_SUFFIX = {
+    "reset": [("reset", 0)],
+    "truncate-out": [("set", 0, 3, None), ("persist", 0, "out", 3, b"n")],
+    "truncate-in": [("set", 0, None, 5), ("persist", 0, "in", 5, b"z")],
+    "reset-then-store": [("reset", 0), ("persist", 0, "out", 1, b"n"), ("persist", 1, "out", 1, b"m")],
+}
+
+
+def bulk(acc, which, only_point=None):
+    """A journal larger than sqlite's page cache (about 3 MB of messages), then a truncating
+    operation with every crash point: large transactions spill dirty pages to the database file
+    before commit, which only a real rollback journal makes safe."""
+    pay = b"x" * 1100
+    prefix = [("create", 0), ("create", 1)]
+    prefix += [("persist", 0, "out", n, pay) for n in range(1, 1301)]
+    prefix += [("persist", 0, "in", n, pay) for n in range(1, 1301)]
+    ops = prefix + BULK_SUFFIX[which]
+    d = _tmp()
+    try:
+        run_list(acc, ops, d, only_point=only_point, quiet=len(prefix), case0={"bulk": which})
+    finally:
+        shutil.rmtree(d, ignore_errors=True)
+    acc.extra["bulk_journal_bytes"] = 2600 * 1100
+
+
 def shard(acc, n, seed, max_ops, engine="snapshot", fixed=False):
     d = _tmp()
     try:
@@ -350,13 +379,18 @@ def plan(tier, seed):
     if tier == "quick":
         jobs = [("shard", {"n": 25, "seed": derive_seed(seed, PROPERTY, "fork"), "max_ops": 8, "engine": "fork", "fixed": True})]
         jobs += [("shard", {"n": 120, "seed": derive_seed(seed, PROPERTY, i), "max_ops": 10}) for i in range(12)]
+        jobs += [("bulk", {"which": w}) for w in ("reset", "truncate-out")]
     else:
         jobs = [("shard", {"n": 500, "seed": derive_seed(seed, PROPERTY, "fork"), "max_ops": 12, "engine": "fork", "fixed": True})]
         jobs += [("shard", {"n": 2500, "seed": derive_seed(seed, PROPERTY, i), "max_ops": 20}) for i in range(14)]
+        jobs += [("bulk", {"which": w}) for w in BULK_SUFFIX]
     return jobs
 
 
 def replay(acc, case):
+    if "bulk" in case:
+        bulk(acc, case["bulk"], only_point=case["point"])
+        return
     d = _tmp()
     try:
         ops = [tuple(o) for o in case["ops"]]
